@@ -1,2 +1,102 @@
+/* tag iterator, tag-list edit histories, tag dump */
 #include "h.h"
-const struct op ops_tags[] = { {NULL, NULL} };
+#include <stddef.h>
+
+/* iter <hex>: init, then the callers' do/while loop; every pointer printed as an offset */
+static void op_iter(int nt, char **t) {
+    (void) nt;
+    size_t n; unsigned char *b = hexbuf(t[1], &n);
+    struct libwifi_tag_iterator it; memset(&it, 0, sizeof it);
+    int r;
+    LIB(r = libwifi_tag_iterator_init(&it, b, n));
+    if (r != 0) { printf("iter err"); __real_free(b); return; }
+    printf("iter ok end=%td", it._frame_end - b);
+    int steps = 0;
+    int nx;
+    do {
+        printf(" (%td,%u,%u,%td,%td)", (unsigned char *) it.tag_header - b, it.tag_header->tag_num,
+               it.tag_header->tag_len, it.tag_data - b, (unsigned char *) it._next_tag_header - b);
+        LIB(nx = libwifi_tag_iterator_next(&it));
+        if (nx != -1 && nx != it.tag_header->tag_num) printf(" BADRET(%d)", nx);
+        if (++steps > 100000) { printf(" RUNAWAY"); break; }
+    } while (nx != -1);
+    __real_free(b);
+}
+
+/* tagops <kind> <op>...   A:<num>:<hexbody>  R:<num>  S:<hexssid>  C:<ch>  K:<num>
+ * after every op: ret,len,bytes */
+static void op_tagops(int nt, char **t) {
+    struct libwifi_beacon bc; struct libwifi_probe_resp pr; struct libwifi_assoc_resp ar; struct libwifi_reassoc_resp rr;
+    memset(&bc, 0, sizeof bc); memset(&pr, 0, sizeof pr); memset(&ar, 0, sizeof ar); memset(&rr, 0, sizeof rr);
+    struct libwifi_tagged_parameters *tags;
+    int kind = (int) tok_ll(t[1]);
+    switch (kind) { case 1: tags = &pr.tags; break; case 2: tags = &ar.tags; break; case 3: tags = &rr.tags; break; default: tags = &bc.tags; }
+    printf("tagops");
+    for (int i = 2; i < nt; i++) {
+        char *o = t[i];
+        long r = 0;
+        if (o[0] == 'A') {
+            char *c2 = strchr(o + 2, ':');
+            *c2 = 0;
+            int num = (int) tok_ll(o + 2);
+            size_t n; unsigned char *b = hexbuf(c2 + 1, &n);
+            LIB(r = libwifi_quick_add_tag(tags, num, b, n));
+            __real_free(b);
+        } else if (o[0] == 'R') {
+            LIB(r = libwifi_remove_tag(tags, (int) tok_ll(o + 2)));
+        } else if (o[0] == 'K') {
+            LIB(r = libwifi_check_tag(tags, (int) tok_ll(o + 2)));
+        } else if (o[0] == 'S') {
+            size_t n; unsigned char *b = hexbuf(o + 2, &n);
+            char *z = __real_malloc(n + 1); memcpy(z, b, n); z[n] = 0;
+            if (kind == 1) LIB(r = libwifi_set_probe_resp_ssid(&pr, z)); else LIB(r = libwifi_set_beacon_ssid(&bc, z));
+            __real_free(z); __real_free(b);
+        } else if (o[0] == 'C') {
+            uint8_t ch = (uint8_t) tok_ll(o + 2);
+            switch (kind) {
+                case 1: LIB(r = libwifi_set_probe_resp_channel(&pr, ch)); break;
+                case 2: LIB(r = libwifi_set_assoc_resp_channel(&ar, ch)); break;
+                case 3: LIB(r = libwifi_set_reassoc_resp_channel(&rr, ch)); break;
+                default: LIB(r = libwifi_set_beacon_channel(&bc, ch));
+            }
+        }
+        printf(" %s%ld,%zu,", r < 0 ? "err" : "", r < 0 ? 0 : r, tags->length);
+        out_hex(tags->parameters, tags->length);
+    }
+    LIB(free(tags->parameters));
+    if (ledger_live() != 0) printf(" LEAK(%d)", ledger_live());
+}
+
+/* dumptag <num> <len> <hexbody> <buflen>: buffer of exactly buflen bytes between canaries */
+static void op_dumptag(int nt, char **t) {
+    (void) nt;
+    struct libwifi_tagged_parameter tag; memset(&tag, 0, sizeof tag);
+    size_t n; unsigned char *body = hexbuf(t[3], &n);
+    tag.header.tag_num = (uint8_t) tok_ll(t[1]);
+    tag.header.tag_len = (uint8_t) tok_ll(t[2]);
+    tag.body = body;
+    size_t bl = (size_t) tok_ll(t[4]);
+    unsigned char *buf = __real_malloc(bl);
+    memset(buf, 0xEE, bl);
+    size_t r;
+    LIB(r = libwifi_dump_tag(&tag, buf, bl));
+    if ((long) r < 0) {
+        int touched = 0;
+        for (size_t i = 0; i < bl; i++) touched |= buf[i] != 0xEE;
+        printf("dumptag err%s", touched ? " TOUCHED" : "");
+    } else {
+        printf("dumptag ok %zu ", r);
+        out_hex(buf, r <= bl ? r : bl);
+        int touched = 0;
+        for (size_t i = r; i < bl; i++) touched |= buf[i] != 0xEE;
+        if (touched) printf(" BEYOND");
+    }
+    __real_free(buf); __real_free(body);
+}
+
+const struct op ops_tags[] = {
+    {"iter", op_iter},
+    {"tagops", op_tagops},
+    {"dumptag", op_dumptag},
+    {NULL, NULL},
+};
